@@ -522,6 +522,17 @@ CLAIMED["C01"] = (
     CLAIMED["C01"][3],
 )
 
+CLAIMED["C17"] = (
+    CLAIMED["C17"][0].replace("15 theorems", "the table theorems")
+    + " docs/gen_checks.py is modelled too (an insertion-ordered dict keyed by the PRINTED code, written in sorted key order) and, for ANY "
+    "catalogue, proved to write exactly one section per check in the order of the printed codes when those are pairwise different "
+    "(genDocs_perm, genDocs_sorted) and to LOSE a check's section when two checks print the same code (genDocs_collision — FURB1+23 and "
+    "FURB+123 are different keys that print alike, hence printed_codes_unique on top of codes_unique); docs/checks.md as shipped equals "
+    "the generator's output for today's catalogue, section for section and in order (docs_are_generated). The first line `--explain` "
+    "prints is modelled (header_shape) and identifies the check (headers_identify_checks).",
+    CLAIMED["C17"][1], CLAIMED["C17"][2], CLAIMED["C17"][3],
+)
+
 def main() -> int:
     m = build()
     (VERIF / "MANIFEST.json").write_text(json.dumps(m, indent=1, ensure_ascii=False) + "\n")
